@@ -3,6 +3,7 @@ Handlers for the example-distribution constructors and uniform binning (C11, C19
 -/
 import DitModel.Core.Examples
 import DitModel.Core.Binning
+import DitModel.Core.PruneExpand
 import DitModel.Drv.Constr
 namespace Dit.Drv
 open Dit
@@ -47,7 +48,22 @@ def hMaxentBin : J → Option J
                    listJ ratJ (maxentThresholds nr bins xs)])
   | _ => none
 
+/-- `prune [dist, keep]` / `expand [dist, union]`: observable record of the rebuilt distribution, or the error. -/
+def hPrune : J → Option J
+  | .arr [d, keep] => do
+      let d ← J.toDist? decNat d
+      let keep ← J.toList? (J.toList? decNat) keep
+      pure (exceptJ (obsJ natJ) (prunedDist ratCfg (fun v => v == 0) natLt lex1 d keep))
+  | _ => none
+
+def hExpand : J → Option J
+  | .arr [d, u] => do
+      let d ← J.toDist? decNat d
+      let u ← u.toBool?
+      pure (exceptJ (obsJ natJ) (expandedDist ratCfg natLt lex1 d u))
+  | _ => none
+
 def exampleHandlers : List (String × (J → Option J)) :=
-  [("example", hExample), ("ubin", hUniformBin), ("mbin", hMaxentBin)]
+  [("example", hExample), ("ubin", hUniformBin), ("mbin", hMaxentBin), ("prune", hPrune), ("expand", hExpand)]
 
 end Dit.Drv
